@@ -131,6 +131,14 @@ def directed_cases():
                 "call shmbuf_free 1", "call sock_new 2 0 12", "call sock_listen 2 12", "call sock_new 3 0 12", "call sock_connect 3 2 12",
                 "call sock_accept 2 4 12", "call sysfail close", "call sock_free 4", "call sysfail close", "call sock_free 3", "call sysfail close",
                 "call sock_free 2", "call err_free 12", "call lib_shutdown", "end"])
+    # access mode CREATE on a name that exists: the object is re-created and the new handle owns it (its free removes the name);
+    # scripted failures of sem_open / fcntl(F_SETFL) on the error exits that already hold a descriptor, a mapping or a name
+    out.append(["begin", "call lib_init", "call sem_new 0 0 0 x", "call sem_new 1 0 1 x", "call sem_cycle 1 x", "call sem_free 1", "call sem_new 2 0 0 x",
+                "call sem_new 3 0 1 12", "call sem_free 0", "call sem_free 3", "call sem_free 2", "call err_free 12", "call lib_shutdown", "end"])
+    out.append(["begin", "call lib_init", "call sysfail fcntl", "call sock_new 0 0 12", "call sock_new 1 0 12", "call sock_listen 1 12", "call sock_new 2 0 12",
+                "call sock_connect 2 1 12", "call sysfail fcntl", "call sock_accept 1 3 12", "call sysfail fcntl", "call sock_from_fd 4 12", "call sysfail sem_open",
+                "call shm_new 5 2 0 12", "call shm_new 5 2 0 12", "call sysfail sem_open", "call shm_new 6 2 2 12", "call sysfail sem_open", "call shmbuf_new 7 3 0 12",
+                "call sysfail sem_open", "call sem_new 8 4 1 12", "call shm_free 5", "call sock_free 2", "call sock_free 1", "call err_free 12", "call lib_shutdown", "end"])
     out.append(["begin", "call lib_init", "call lib_shutdown", "call lib_init", "call cur_thread", "call lib_shutdown", "call lib_init",
                 "call tls_new 0", "call tls_set 0", "call thread_run 1 1 1 0", "call thread_run 2 0 1 0", "call thread_unref 2", "call thread_unref 1",
                 "call tls_free 0", "call lib_shutdown", "end"])
